@@ -30,12 +30,14 @@ TVolumes == /\ Ev.e = "Volumes" /\ Volumes
             /\ l' = l + 1 /\ UNCHANGED tid
 TRadii == /\ Ev.e = "Radii" /\ EqualVolumeRadii /\ l' = l + 1 /\ UNCHANGED <<tid, fail>>
 TPipeK == /\ Ev.e = "SolvePipeK" /\ SolvePipeK(Ev.oc)
-          \* F11 (listed): for coaxial exchangers the fixed bracket k/100 .. 10k can lie below the root (ClampHigh). Any other
-          \* unbracketed pipe solve is a failure: on the unchanged tree every double-U conversion brackets.
+          \* F11 (listed): the bracket k0/100 .. 10 k0 around the preliminary conductivity is fixed; when the conductivity that
+          \* reproduces R_f + R_p lies outside it (thick or laminar-flow exchangers) the solve clamps. root_in_bracket is computed
+          \* by the harness from the equivalent tube's radii and film resistance. A clamp although the root is inside the
+          \* documented bracket is a failure.
           /\ fail' = Note(\/ (Ev.oc = "Bracketed" /\ Abs(Ev.dev_ppm) <= 100)
-                          \/ (Ev.oc = "ClampHigh" /\ Ev.kind = "COAXIAL"),
+                          \/ (Ev.oc \in {"ClampHigh", "ClampLow"} /\ ~Ev.root_in_bracket),
                           IF Ev.oc = "Bracketed" THEN "bracketed pipe-conductivity solve does not reproduce R_f + R_p"
-                          ELSE "pipe-conductivity solve not bracketed (" \o Ev.oc \o "): R_f + R_p not reproduced")
+                          ELSE "pipe-conductivity solve not bracketed (" \o Ev.oc \o ") although the root lies inside the documented bracket")
           /\ l' = l + 1 /\ UNCHANGED tid
 TGroutK == /\ Ev.e = "SolveGroutK" /\ SolveGroutK(Ev.oc)
            /\ fail' = Note(Ev.oc # "Bracketed" \/ Abs(Ev.rb_dev_ppm) <= 1000, "bracketed grout-conductivity solve does not reproduce R_b* within 0.1 %")
